@@ -384,9 +384,31 @@ def run(ctx):
                 m_add = int(rng.choice(ps_obj.modes))
                 nums = [(0, 1), (1,), (0,), (1, 2)][int(rng.integers(4))]
                 if m_add < k:
+                    # (a long-lived Sampler draws with the rule set as it is now, and again after the rule was added)
+                    smp_g = None
+                    try:
+                        smp_g = emu.Sampler(c, inputs[0])
+                        smp_g.sample_N_outputs(50, ps_obj, seed=7)
+                        smp_g.sample_N_inputs(50, ps_obj, seed=7)
+                    except Exception:  # noqa: BLE001
+                        smp_g = None
                     ps_obj.add(m_add, nums)
                     ctx.bucket("rule_added_in_place")
                     pred2 = (lambda s, p=pred, m=m_add, ns=nums: p(s) and s[m] in ns)
+                    if smp_g is not None:
+                        for meth_ in ("sample_N_outputs", "sample_N_inputs"):
+                            try:
+                                drawn = getattr(smp_g, meth_)(200, ps_obj, seed=11)
+                            except Exception:  # noqa: BLE001 - nothing acceptable is left: a documented refusal
+                                continue
+                            ctx.count("rel_sampler_draws_after_in_place_rule")
+                            bad_ = [list(st) for st in drawn if not pred2(list(st))]
+                            if bad_:
+                                ctx.violation(f"after adding rule ({m_add}, {nums}) to the PostSelection in place, "
+                                              f"Sampler.{meth_} of a sampler that had used it before returns {bad_[0]}, "
+                                              f"which the rules now forbid", case=case,
+                                              mechanism="sampler_draws_after_in_place_rule:" + meth_,
+                                              monitor="relation checker")
                     a2 = {}
                     for full, p in sdists[0].items():
                         if heralds_ok(full):
